@@ -120,6 +120,7 @@ def run(fb, rep, tier):
     _run(fb, rep, tier)
     tolerance_siblings(fb, rep)
     guard_is_resource(fb, rep)
+    reseed(fb, rep)
 
 
 def _run(fb, rep, tier):
@@ -732,3 +733,31 @@ def guard_is_resource(fb, rep):
                       'the arrays %s are copied under the condition `%s`, which does not look at any of them: when the two disagree the copy reads a null pointer or loses data' % (arrays[:3], cond[:60]))
     if k < 1:
         raise AnalysisBroken('R17.10: no conditional raw-array copy found in the copy operations')
+
+
+def reseed(fb, rep):
+    """R17.11: "solving the same unmodified object again after clearing its basis" repeats the first solve only if every piece of state the
+    pivoting path depends on is back at its initial value.  One such piece is visible in the shape of the code: the solver's random number
+    generator (SPxSolverBase::random), from which every perturbation / shift draws.  It is advanced by each draw and re-seeded only by
+    setRandomSeed(); unless clearBasis() or the start of a from-scratch solve re-seeds it, the second solve sees other random numbers."""
+    from engine import transitive_calls
+    rep.rule('R17.11', 'the random number generator the simplex draws from is re-seeded where a from-scratch solve starts (clearBasis / optimize)', floor=1)
+    draws = 0
+    for f in fb.funcs.values():
+        if f.cls and f.cls.startswith('soplex::SPxSolverBase<double>'):
+            draws += sum(1 for n in f.nodes if n.k == 'CXXMemberCallExpr' and n.short == 'next' and n.obj() is not None and render(strip(n.obj())).endswith('random'))
+    if draws < 10:
+        raise AnalysisBroken('R17.11: only %d draws from SPxSolverBase::random found' % draws)
+
+    def seeds(c):
+        return c.k == 'CXXMemberCallExpr' and c.short == 'setSeed' and c.obj() is not None and 'random' in render(c.obj())
+    for nm in ('clearBasis', 'optimize'):
+        fs = [f for f in fb.find(C + '::' + nm) if f.nodes]
+        if not fs:
+            raise AnalysisBroken('R17.11: %s not found' % nm)
+    cb = [f for f in fb.find(C + '::clearBasis') if f.nodes][0]
+    op = [f for f in fb.find(C + '::optimize') if f.nodes][0]
+    ok = transitive_calls(fb, cb, seeds, depth=5) or transitive_calls(fb, op, seeds, depth=5)
+    rep.check(ok, 'R17.11', 'clearBasis|random-not-reseeded', cb.where(), 're-seeded on the from-scratch path',
+              'the simplex draws from SPxSolverBase::random at %d places (perturbation, shifting) and neither clearBasis() nor optimize() ever re-seeds it: '
+              'a second solve of the same object after clearBasis() runs with other random numbers than the first' % draws)
